@@ -29,6 +29,7 @@ PROP = "C20"
 OPERATORS = ["torn", "splice", "lost", "dup", "swap", "flip"]
 SECTORS = ["line", 16, 64]
 NPOS = 3
+STRIDE = 29  # registered family = members 0, 29, 58, ... of the full product
 FIXTURE_FILES = ("builtins.pyi", "typing.pyi", "_typeshed.pyi")
 LINE_RE = re.compile(r"^[^\s:][^:\n]*:(\d+:)?(\d+:)?(\d+:\d+:)? (error|note|warning): ")
 OTHER_OK = re.compile(r"^(Found \d+ errors? in \d+ files? \(.*\)|Success: no issues found in \d+ source files?|mypy: .*|\s.*|)$")
@@ -357,9 +358,11 @@ def run(tier: str) -> int:
         "only the inputs that storage faults produce are covered; identifier cross-wiring and type-expression replacement of the property's quantifier are not",
         "a corpus program that does not run clean unmodified under the harness layout is skipped (counted)",
     ]
-    rng = kit.rng_for(PROP, "sample", tier)
-    n = 420 if tier == "quick" else 30000
-    idx = sorted(rng.sample(range(total), min(n, total)))
+    # The registered family is the strided subset of the full product (every STRIDE-th member): it is small
+    # enough to be swept completely, which the known-finding discipline needs (DESIGN 9.8).
+    fam = list(range(0, total, STRIDE))
+    n = 420 if tier == "quick" else len(fam)
+    idx = [fam[j] for j in kit.sample_indices(PROP, "family", len(fam), n)]
     items = [("batch", i) for i in idx] + [("daemon", i) for i in idx[:: 2 if tier == "quick" else 1]]
     only = os.environ.get("VERIF_C20_RANGE")
     if only:
@@ -373,6 +376,7 @@ def run(tier: str) -> int:
         rep.add_result(r)
         if "violation" in r:
             by_class.setdefault(vkey(r["violation"]), []).append(r["violation"])
+    kit.dump_raw(PROP, tier, {c_: [dict(v_, family=v_["leg"], k=v_["index"]) for v_ in vs_] for c_, vs_ in by_class.items()})
     for cls, vs in sorted(by_class.items()):
         e = match_known(vs[0], known)
         if e is not None and all(match_known(v, known) is not None for v in vs):
